@@ -121,6 +121,19 @@ Proof.
 Qed.
 Print Assumptions C18_rotation_facts.
 
+(* the rotation block: orthonormal rows for a unit quaternion, and inv() transposes it *)
+Theorem C18_rotation_block_orthogonal : forall q : quat,
+  qnorm2 q == 1 ->
+  vdot (k1 (rotm q)) (k1 (rotm q)) == 1 /\ vdot (k2 (rotm q)) (k2 (rotm q)) == 1 /\ vdot (k3 (rotm q)) (k3 (rotm q)) == 1 /\
+  vdot (k1 (rotm q)) (k2 (rotm q)) == 0 /\ vdot (k1 (rotm q)) (k3 (rotm q)) == 0 /\ vdot (k2 (rotm q)) (k3 (rotm q)) == 0 /\
+  m3eq (rotm (qconj q)) (transpose3 (rotm q)).
+Proof.
+  intros q H. destruct (rotm_orthogonal q) as (A&B&C&D&E&F). rewrite H in A, B, C.
+  split; [rewrite A; ring|]. split; [rewrite B; ring|]. split; [rewrite C; ring|].
+  split; [exact D|]. split; [exact E|]. split; [exact F|]. apply rotm_conj_transpose.
+Qed.
+Print Assumptions C18_rotation_block_orthogonal.
+
 (* ---- registry ----------------------------------------------------------------------------- *)
 (* [registered_last reg s d m]: m is the last matrix labelled s->d given to TransformDict;
    [not_registered reg s d]: no matrix labelled s->d was given. *)
@@ -156,6 +169,18 @@ Proof.
   apply apply_inv_cancel.
 Qed.
 Print Assumptions C18_registry_inverse_fallback.
+
+(* a matrix argument M : d->e is composed with the answer m : s->d into s->e, acting as "m, then M" *)
+Theorem C18_registry_matrix_argument : forall (reg : registry) (a b : spelling) (m M : rigid) p r,
+  reg_lookup reg a b = LUse m -> rsrc M = rdst m ->
+  exists C, reg_transform_matrix reg a b M = TOk C /\ rsrc C = rsrc m /\ rdst C = rdst M /\
+            veq (fst (apply_pose C (p, r))) (fst (apply_pose M (apply_pose m (p, r)))) /\
+            qeq (snd (apply_pose C (p, r))) (snd (apply_pose M (apply_pose m (p, r)))).
+Proof.
+  intros reg a b m M p r L H. destruct (reg_transform_matrix_use reg a b m M L H) as (C&HC&HD&HS&HT).
+  exists C. split; [exact HC|]. split; [exact HS|]. split; [exact HT|]. apply compose_is_two_steps, HD.
+Qed.
+Print Assumptions C18_registry_matrix_argument.
 
 (* X->X: the arguments come back unchanged whatever is registered and however X is spelt *)
 Theorem C18_registry_identity : forall (reg : registry) (a b : spelling) (k : string) p pr M,
